@@ -16,7 +16,7 @@ using arr_t = nmtools::utl::array<nm_size_t,4>;
 // ---------------------------------------------------------------- static_vector<size_t,8>
 sv_t verif_sv_default() { sv_t v; return v; }
 sv_t verif_sv_sized(nm_size_t n) { sv_t v(n); return v; }
-sv_t verif_sv_variadic(nm_size_t a, nm_size_t b, nm_size_t c) { sv_t v(a,b,c); return v; }
+sv_t verif_sv_variadic(nm_size_t a, nm_size_t b, nm_size_t c3) { sv_t v(a,b,c3); return v; }
 sv_t verif_sv_copy(sv_t v) { sv_t c(v); return c; }
 sv_t verif_sv_assign(sv_t dst, sv_t src) { dst = src; return dst; }
 sv_t verif_sv_self_assign(sv_t v) { v = v; return v; }
@@ -89,15 +89,15 @@ using tp_t  = nmtools::utl::tuple<nm_size_t,int,nm_size_t>;
 using tp2_t = nmtools::utl::tuplev2<nm_size_t,int,nm_size_t>;
 struct tp_probe_t { nm_size_t e0; int e1; nm_size_t e2; };
 using tpp_t = tp_probe_t;
-tp_probe_t verif_tp_get(nm_size_t a, int b, nm_size_t c)
+tp_probe_t verif_tp_get(nm_size_t a, int b, nm_size_t c3)
 {
-    tp_t t(a,b,c);
+    tp_t t(a,b,c3);
     tp_probe_t p = { utl::get<0>(t), utl::get<1>(t), utl::get<2>(t) };
     return p;
 }
-tp_probe_t verif_tp_copy_get(nm_size_t a, int b, nm_size_t c)
+tp_probe_t verif_tp_copy_get(nm_size_t a, int b, nm_size_t c3)
 {
-    tp_t t(a,b,c);
+    tp_t t(a,b,c3);
     tp_t u(t);
     tp_t w; w = u;
     utl::get<0>(t) = 0; utl::get<1>(t) = 0; utl::get<2>(t) = 0;   // copies are independent of their source
@@ -110,23 +110,23 @@ tp_probe_t verif_tp_default()
     tp_probe_t p = { utl::get<0>(t), utl::get<1>(t), utl::get<2>(t) };
     return p;
 }
-tp_probe_t verif_tp_write(nm_size_t a, int b, nm_size_t c, int y)
+tp_probe_t verif_tp_write(nm_size_t a, int b, nm_size_t c3, int y)
 {
-    tp_t t(a,b,c);
+    tp_t t(a,b,c3);
     utl::get<1>(t) = y;
     const tp_t& ct = t;
     tp_probe_t p = { utl::get<0>(ct), utl::get<1>(ct), utl::get<2>(ct) };
     return p;
 }
-tp_probe_t verif_tp2_get(nm_size_t a, int b, nm_size_t c)
+tp_probe_t verif_tp2_get(nm_size_t a, int b, nm_size_t c3)
 {
-    tp2_t t(a,b,c);
+    tp2_t t(a,b,c3);
     tp_probe_t p = { utl::get<0>(t), utl::get<1>(t), utl::get<2>(t) };
     return p;
 }
-tp_probe_t verif_tp2_copy_write(nm_size_t a, int b, nm_size_t c, int y)
+tp_probe_t verif_tp2_copy_write(nm_size_t a, int b, nm_size_t c3, int y)
 {
-    tp2_t t(a,b,c);
+    tp2_t t(a,b,c3);
     tp2_t u(t);
     utl::get<1>(u) = y;
     utl::get<0>(t) = 0;
@@ -239,9 +239,9 @@ vecp_t verif_vec_zero_push(nm_size_t x)
     return p;
 }
 // variadic construction
-vecp_t verif_vec_variadic(nm_size_t a, nm_size_t b, nm_size_t c)
+vecp_t verif_vec_variadic(nm_size_t a, nm_size_t b, nm_size_t c3)
 {
-    vec_t v(a, b, c);
+    vec_t v(a, b, c3);
     vecp_t p = { v.size(), v[0], v[1], v[2] };
     return p;
 }
